@@ -744,3 +744,89 @@ def c16(v, tier, seed):
                      "(b) %d threads x %d calls under ThreadSanitizer, each thread's log validated by the sequential trace specifications" % (nthr, per))
     v.cov["distinct_nontrivial"] = res.distinct
     v.assumptions.append("the universal claim over schedules rests on SharedCells = {} (structural fact checked on the objects) plus readers not writing (C01 read-only placement); the stress run samples schedules")
+
+
+def tunnel_cfg(tscf, udp, fd, count, npackets=None, lens=None):
+    t = "CONSTANTS\n  Buf = {1}\n  Tscf = %d\n  Udp = %d\n  Fd = %d\n  Count = %d\n" % (tscf, udp, fd, count)
+    if npackets is not None:
+        return "SPECIFICATION GSpec\n" + t + "  NPackets = %d\n  Lens = {%s}\nCONSTRAINT Emit\nINVARIANT RefTransparent\nCHECK_DEADLOCK FALSE\n" % (npackets, ", ".join(map(str, lens)))
+    return "SPECIFICATION TSpec\n" + t + "INVARIANT Transparent\nINVARIANT Quiescent\nPOSTCONDITION TraceAccepted\nCHECK_DEADLOCK FALSE\n"
+
+
+def tunnel_key(ev_scn, stage):
+    fs = ev_scn["frames"]
+    feats = []
+    if any(f["rtr"] for f in fs): feats.append("rtr")
+    if any(f["esi"] for f in fs): feats.append("esi")
+    if any(f["eff"] and from64([0] * 4 + f["id"]) <= 0x7FF for f in fs): feats.append("eff-with-11bit-id")
+    if ev_scn["count"] > 1 and len(set((f["brs"], f["esi"]) for f in fs)) > 1: feats.append("mixed-fd-flags")
+    return "tunnel stage=%s %s" % (stage, "+".join(feats) if feats else "plain")
+
+
+@check("C19")
+def c19(v, tier, seed):
+    import xprog
+    rnd = random.Random(seed)
+    wd = workdir()
+    q = tier == "quick"
+    talker = xprog.build_xh(wd, "can-talker"); listener = xprog.build_xh(wd, "can-listener")
+    modes = [(t, u, f, c) for t in (0, 1) for u in (0, 1) for f in (0, 1) for c in ((1, 2) if q else (1, 2, 3))]
+    total = 0
+    shard_jobs = []
+    for (tscf, udp, fd, count) in modes:
+        lens = ([0, 3, 8] if q else [0, 1, 3, 4, 8]) if not fd else ([0, 12, 64] if q else [0, 1, 8, 12, 63, 64])
+        if count == 3: lens = lens[:2]
+        if count == 2 and not q: lens = lens[:3]
+        res = run_tlc("GenTunnel", tunnel_cfg(tscf, udp, fd, count, npackets=1, lens=lens), wd)
+        v.add_tlc("GenTunnel tscf=%d udp=%d fd=%d count=%d" % (tscf, udp, fd, count), res)
+        if not res.ok: raise Infra("CanTunnel reference machine not transparent:\n" + (res.violation or "")[-1200:])
+        scns = res.emitted
+        if q and len(scns) > 400:
+            scns = rnd.sample(scns, 400)
+        # multi-packet sequences: chain pairs of scenarios into one talker run (the talker keeps running)
+        tl = ["T %d %d %d %d %s" % (tscf, udp, fd, count, " ".join(xprog.frame_bytes(f, fd).hex() for f in s["frames"])) for s in scns]
+        tres, _ = xprog.run_xh(talker, tl)
+        ll, meta = [], []
+        for s, r in zip(scns, tres):
+            pk = [p for seg in r["outs"] for p in seg]
+            if r["status"] != "ok" or len(pk) != 1:
+                v.violation(tunnel_key(s, "talker-run"), "talker did not produce exactly one packet (%s, %d packets) for %s" % (r["status"], len(pk), json.dumps(s)[:300]), {"scenario": s})
+                continue
+            ll.append("L %d %d 0 %s" % (udp, fd, pk[0])); meta.append((s, pk[0]))
+        lres, _ = xprog.run_xh(listener, ll)
+        evs = []
+        for (s, pk), r in zip(meta, lres):
+            if r["status"] != "ok":
+                v.violation(tunnel_key(s, "listener-run"), "listener %s on the talker's packet for %s" % (r["status"], json.dumps(s)[:300]), {"scenario": s, "packet": pk})
+                continue
+            frames_out = [xprog.frame_parse(bytes.fromhex(x), fd) for seg in r["outs"] for x in seg]
+            evs.append({"e": "reset", "scn": s})
+            for f in s["frames"]: evs.append({"e": "read", "frame": f})
+            evs.append({"e": "send", "packet": unhexs(pk)})
+            evs.append({"e": "deliver", "packet": unhexs(pk), "frames": frames_out})
+        total += len(scns)
+        shard_jobs.append(((tscf, udp, fd, count), evs))
+        if scns: v.sample({"scenario": scns[0]})
+    # validate every mode's recorded runs with TunnelTrace (constants = the mode)
+    def resume(evs, idx):
+        for j in range(idx + 1, len(evs)):
+            if evs[j]["e"] == "reset": return j
+        return None
+    def keyfn_for(evs):
+        def k(ev, evs_=None, i=None):
+            if i is None: i = evs.index(ev)
+            j = max(x for x in range(i + 1) if evs[x]["e"] == "reset")
+            return tunnel_key(evs[j]["scn"], {"send": "talker-packet", "deliver": "listener-output"}.get(ev["e"], ev["e"]))
+        return k
+    for (mode, evs) in shard_jobs:
+        if not evs: continue
+        parts = pdu.shard_by(evs, lambda e: e["e"] == "reset", 4 if q else 8)
+        for part in parts:
+            pdu.validate_events(v, wd, [part], "C19", "tunnel tscf=%d udp=%d fd=%d count=%d" % mode, module="TunnelTrace",
+                                cfg=tunnel_cfg(*mode), keyfn=keyfn_for(part), resume=resume)
+    v.cov["evaluations"] += total
+    v.cov["rule"] = ("TLC enumerates every sequence of Count frames over the alphabet {5 identifier/EFF classes} x RTR (classic) or BRS x ESI (FD) x lengths, for "
+                     "TSCF/NTSCF x UDP/raw x classic/FD x 1..3 frames per packet (RefTransparent on the model); each scenario is pushed through the real example talker "
+                     "(read/sendto intercepted) and the packet through the real listener; the recorded run is validated by TunnelTrace (Decode of the packet = frames read, "
+                     "control-header length = bytes of the ACF messages, frames written = Decode, outq prefix of inq)")
+    v.cov["distinct_nontrivial"] = total
